@@ -31,6 +31,7 @@ type loopRT struct {
 	decr    *Clause
 	decrHead Term
 	props   []string
+	quantCand bool
 }
 
 func (f *Frame) loopRT(h int) *loopRT {
@@ -398,6 +399,32 @@ func (f *Frame) genCandidates(li *loopInfo, rt *loopRT, eff *effects) {
 			}
 		}
 	}
+	// (d) whole-heap frame: every region existing at loop entry that is not written through an outside slice
+	//     (or an embedded array of an outside object) keeps its contents
+	for hn, hs := range eff.names {
+		if !strings.HasPrefix(hn, "HE_") {
+			continue
+		}
+		hn, hs := hn, hs
+		regs, ok := f.writtenRegions(li, hn)
+		if !ok {
+			continue
+		}
+		entryH := e.heap(rt.entrySt, hn, hs)
+		entryWm := rt.entrySt.wm
+		f.newCand(rt, "frame-all:"+hn, func(ph map[*ssa.Phi]Value, st *State) (Term, bool) {
+			q := e.qvar()
+			qv := sym(q, SRef)
+			alts := []Term{ult(entryWm, qv)}
+			for _, r := range regs {
+				alts = append(alts, eq(qv, r))
+			}
+			alts = append(alts, eq(sel(e.heap(st, hn, hs), qv), sel(entryH, qv)))
+			return Term{S: fmt.Sprintf("(forall ((%s (_ BitVec 64))) %s)", q, or(alts...).S), Sort: SBool}, true
+		})
+		rt.quantCand = true
+		e.quantCands = true
+	}
 	// (c) frame candidates: regions of slices defined outside the loop stay unchanged
 	var hnames []string
 	for k := range eff.names {
@@ -454,6 +481,95 @@ func (f *Frame) genCandidates(li *loopInfo, rt *loopRT, eff *effects) {
 			}
 		}
 	}
+}
+
+// writtenRegions: regions written in the loop body through element stores / copy / append whose target slice is
+// defined outside the loop. ok=false when some write goes through a loop-carried or unknown slice.
+func (f *Frame) writtenRegions(li *loopInfo, hn string) ([]Term, bool) {
+	e := f.e
+	var regs []Term
+	seen := map[string]bool{}
+	add := func(v ssa.Value) bool {
+		// peel slicing: s[a:b] writes into the region of s
+		for {
+			if sl, ok := v.(*ssa.Slice); ok {
+				if _, isSlice := sl.X.Type().Underlying().(*types.Slice); isSlice {
+					v = sl.X
+					continue
+				}
+			}
+			break
+		}
+		if in, ok := v.(ssa.Instruction); ok && in.Block() != nil && li.body[in.Block().Index] {
+			return false
+		}
+		if _, isPhi := v.(*ssa.Phi); isPhi {
+			return false
+		}
+		pv, ok := f.vals[v]
+		if !ok || pv.T.S == "" || pv.T.Sort != SSlice {
+			return false
+		}
+		r := sReg(pv.T)
+		if !seen[r.S] {
+			seen[r.S] = true
+			regs = append(regs, r)
+		}
+		return true
+	}
+	for bi := range li.body {
+		for _, in := range f.fn.Blocks[bi].Instrs {
+			switch x := in.(type) {
+			case *ssa.Store:
+				ia, ok := x.Addr.(*ssa.IndexAddr)
+				if !ok {
+					continue
+				}
+				st, ok := ia.X.Type().Underlying().(*types.Slice)
+				if !ok {
+					if n, _ := e.elemHeapName(e.sortOf(x.Val.Type())); n == hn {
+						return nil, false
+					}
+					continue
+				}
+				if n, _ := e.elemHeapName(e.sortOf(st.Elem())); n != hn {
+					continue
+				}
+				if !add(ia.X) {
+					return nil, false
+				}
+			case *ssa.Call:
+				c := x.Common()
+				if b, ok := c.Value.(*ssa.Builtin); ok && (b.Name() == "copy" || b.Name() == "append") {
+					st, ok := c.Args[0].Type().Underlying().(*types.Slice)
+					if !ok {
+						continue
+					}
+					if n, _ := e.elemHeapName(e.sortOf(st.Elem())); n != hn {
+						continue
+					}
+					if b.Name() == "append" {
+						return nil, false
+					}
+					if !add(c.Args[0]) {
+						return nil, false
+					}
+					continue
+				}
+				eff := newEffects()
+				f.callEffects(c, eff, map[*ssa.Function]bool{}, 0)
+				if _, touched := eff.names[hn]; touched || eff.all {
+					return nil, false
+				}
+			case *ssa.Alloc, *ssa.MakeSlice, *ssa.Convert, *ssa.Defer, *ssa.Go:
+				// allocations create regions above the entry watermark: fine
+				if _, isDefer := in.(*ssa.Defer); isDefer {
+					return nil, false
+				}
+			}
+		}
+	}
+	return regs, true
 }
 
 func (f *Frame) heapMatchesPtr(hn string, pt types.Type) bool {
